@@ -58,15 +58,8 @@ def script_st(draw):
             vals[i] = gen.fs(F(draw(st.integers(1, 60)), 128))
     spec = dict(spec, state={"values": vals, "units": "molecule"})
     m = Model(spec)
-    x = m.state()
-    dx, sc = m.derivative(x, mask=m.flags())
-    best = None
-    for xv, s_ in zip(x, sc):
-        if s_ > 0:
-            r_ = max(abs(xv), 1.0) / s_
-            best = r_ if best is None else min(best, r_)
-    import math
-    dt = 10.0 ** math.floor(math.log10((best if best else 1.0) * 0.05))
+    from vlib.ratelaw import tame_dt
+    dt = tame_dt(m, m.flags(), frac=0.05)
     nst = draw(st.integers(1, 30))
     ts = sorted(draw(st.lists(st.integers(0, nst + 2), min_size=1, max_size=6)))
     tmax = draw(st.sampled_from([None, None, dt * (nst + 0.5), dt * 0.5, 0.0]))
